@@ -375,7 +375,7 @@ fn g_int_hist(rng: &mut Rng, max_calls: usize) -> G<IntVector> {
     let mut terms: Vec<String> = Vec::new();
     let ones = rng.chance(1, 2);
     let n = 2 + rng.below(max_calls as u64) as usize;
-    let mut apply = |v: &mut IntVector, o: HI, terms: &mut Vec<String>| {
+    let apply = |v: &mut IntVector, o: HI, terms: &mut Vec<String>| {
         let mut c = v.clone();
         if let Res::Ok(()) = catch(|| hi_apply(&mut c, &o)) {
             *v = c;
@@ -422,7 +422,7 @@ fn g_raw_hist(rng: &mut Rng, max_calls: usize) -> G<RawVector> {
     let mut terms: Vec<String> = Vec::new();
     let ones = rng.chance(1, 2);
     let n = 2 + rng.below(max_calls as u64) as usize;
-    let mut apply = |v: &mut RawVector, o: HR, terms: &mut Vec<String>| {
+    let apply = |v: &mut RawVector, o: HR, terms: &mut Vec<String>| {
         let mut c = v.clone();
         if let Res::Ok(()) = catch(|| hr_apply(&mut c, &o)) {
             *v = c;
